@@ -12,16 +12,16 @@ Open Scope Z_scope.
 Inductive pres (A : Type) : Type :=
 | POk (a : A) (rest : bytes)
 | PNeb
-| PErr (e : Z)
+| PErr (e : Z) (rest : bytes)      (* parse error, decided after consuming the input up to rest *)
 | PPanic.
 Arguments POk {A}. Arguments PNeb {A}. Arguments PErr {A}. Arguments PPanic {A}.
 
 Definition parser (A : Type) := bytes -> pres A.
 
 Definition ret {A} (a : A) : parser A := fun s => POk a s.
-Definition fail {A} (e : Z) : parser A := fun _ => PErr e.
+Definition fail {A} (e : Z) : parser A := fun s => PErr e s.
 Definition bind {A B} (p : parser A) (f : A -> parser B) : parser B :=
-  fun s => match p s with POk a r => f a r | PNeb => PNeb | PErr e => PErr e | PPanic => PPanic end.
+  fun s => match p s with POk a r => f a r | PNeb => PNeb | PErr e r => PErr e r | PPanic => PPanic end.
 Definition pmap {A B} (f : A -> B) (p : parser A) : parser B := bind p (fun a => ret (f a)).
 Notation "'let*' x ':=' p 'in' q" := (bind p (fun x => q)) (at level 200, x name, p at level 100, q at level 200).
 
@@ -44,7 +44,7 @@ Definition i64 : parser Z := pmap (signed 64) u64.
 Definition counted {A} (p : parser A) : parser (A * Z) :=
   fun s => match p s with
            | POk a r => POk (a, zlen s - zlen r) r
-           | PNeb => PNeb | PErr e => PErr e | PPanic => PPanic
+           | PNeb => PNeb | PErr e r => PErr e r | PPanic => PPanic
            end.
 
 (* n repetitions *)
@@ -60,8 +60,8 @@ Definition sprefix (c' c : bytes) : Prop := exists t, t <> [] /\ c = c' ++ t.
 Record streamable {A} (p : parser A) : Prop := {
   st_ok  : forall s a r, p s = POk a r ->
            exists c, s = c ++ r /\ (forall r', p (c ++ r') = POk a r') /\ (forall c', sprefix c' c -> p c' = PNeb);
-  st_err : forall s e, p s = PErr e ->
-           exists c r, s = c ++ r /\ (forall r', p (c ++ r') = PErr e) /\ (forall c', sprefix c' c -> p c' = PNeb);
+  st_err : forall s e r, p s = PErr e r ->
+           exists c, s = c ++ r /\ (forall r', p (c ++ r') = PErr e r') /\ (forall c', sprefix c' c -> p c' = PNeb);
   st_neb : forall s, p s = PNeb -> forall s' t, s = s' ++ t -> p s' = PNeb;
   st_nopanic : forall s, p s <> PPanic }.
 
@@ -78,7 +78,7 @@ Qed.
 Lemma streamable_fail A e : streamable (@fail A e).
 Proof.
   split; unfold fail; intros; try congruence.
-  - inversion H; subst. exists [], s. split; [reflexivity|]. split; [reflexivity|].
+  - inversion H; subst. exists []. split; [reflexivity|]. split; [reflexivity|].
     intros c' Hc. exfalso. exact (sprefix_nil_absurd c' Hc).
 Qed.
 
@@ -133,7 +133,7 @@ Lemma streamable_bind A B (p : parser A) (f : A -> parser B) :
   streamable p -> (forall a, streamable (f a)) -> streamable (bind p f).
 Proof.
   intros Hp Hf. split; unfold bind.
-  - intros s b r H. destruct (p s) as [a r0| |e0|] eqn:Ep; try congruence.
+  - intros s b r H. destruct (p s) as [a r0| |e0 r0|] eqn:Ep; try congruence.
     destruct (st_ok _ Hp _ _ _ Ep) as [c1 [E1 [K1 N1]]].
     destruct (st_ok _ (Hf a) _ _ _ H) as [c2 [E2 [K2 N2]]].
     exists (c1 ++ c2). split; [subst; rewrite app_assoc; reflexivity|]. split.
@@ -142,26 +142,26 @@ Proof.
       * rewrite (N1 _ Hs). reflexivity.
       * subst c'. rewrite <- (app_nil_r c1), K1. apply N2. exists c2. split; [auto|reflexivity].
       * subst c'. rewrite K1. apply N2; auto.
-  - intros s e H. destruct (p s) as [a r0| |e0|] eqn:Ep; try congruence.
+  - intros s e r H. destruct (p s) as [a r0| |e0 r0|] eqn:Ep; try congruence.
     + destruct (st_ok _ Hp _ _ _ Ep) as [c1 [E1 [K1 N1]]].
-      destruct (st_err _ (Hf a) _ _ H) as [c2 [r2 [E2 [K2 N2]]]].
-      exists (c1 ++ c2), r2. split; [subst; rewrite app_assoc; reflexivity|]. split.
+      destruct (st_err _ (Hf a) _ _ _ H) as [c2 [E2 [K2 N2]]].
+      exists (c1 ++ c2). split; [subst; rewrite app_assoc; reflexivity|]. split.
       * intros r'. rewrite <- app_assoc, K1. apply K2.
       * intros c' Hc. destruct (sprefix_app_inv _ _ _ Hc) as [Hs|[[Hs Hn]|[d [Hd Hs]]]].
         -- rewrite (N1 _ Hs). reflexivity.
         -- subst c'. rewrite <- (app_nil_r c1), K1. apply N2. exists c2. split; [auto|reflexivity].
         -- subst c'. rewrite K1. apply N2; auto.
-    + inversion H; subst. destruct (st_err _ Hp _ _ Ep) as [c1 [r1 [E1 [K1 N1]]]].
-      exists c1, r1. split; [auto|]. split.
+    + inversion H; subst. destruct (st_err _ Hp _ _ _ Ep) as [c1 [E1 [K1 N1]]].
+      exists c1. split; [auto|]. split.
       * intros r'. rewrite K1. reflexivity.
       * intros c' Hc. rewrite (N1 _ Hc). reflexivity.
-  - intros s H s' t Est. destruct (p s) as [a r0| |e0|] eqn:Ep; try congruence.
+  - intros s H s' t Est. destruct (p s) as [a r0| |e0 r0|] eqn:Ep; try congruence.
     + destruct (st_ok _ Hp _ _ _ Ep) as [c1 [E1 [K1 N1]]]. rewrite E1 in Est.
       destruct (split_app_cases _ _ _ _ Est) as [[u [E3 E2]]|Hs].
       * subst s'. rewrite K1. eapply (st_neb _ (Hf a)); eauto.
       * rewrite (N1 _ Hs). reflexivity.
     + rewrite (st_neb _ Hp _ Ep _ _ Est). reflexivity.
-  - intros s H. destruct (p s) as [a r0| |e0|] eqn:Ep; try congruence.
+  - intros s H. destruct (p s) as [a r0| |e0 r0|] eqn:Ep; try congruence.
     + apply (st_nopanic _ (Hf a)) in H. auto.
     + apply (st_nopanic _ Hp) in Ep. auto.
 Qed.
@@ -190,8 +190,8 @@ Proof.
   intros E H. split.
   - intros s a r Hq. rewrite <- E in Hq. destruct (st_ok _ H _ _ _ Hq) as [c [E1 [K N]]].
     exists c. split; [exact E1|]. split; [intros r'; rewrite <- E; apply K|intros c' Hc; rewrite <- E; apply N; exact Hc].
-  - intros s e Hq. rewrite <- E in Hq. destruct (st_err _ H _ _ Hq) as [c [r [E1 [K N]]]].
-    exists c, r. split; [exact E1|]. split; [intros r'; rewrite <- E; apply K|intros c' Hc; rewrite <- E; apply N; exact Hc].
+  - intros s e r Hq. rewrite <- E in Hq. destruct (st_err _ H _ _ _ Hq) as [c [E1 [K N]]].
+    exists c. split; [exact E1|]. split; [intros r'; rewrite <- E; apply K|intros c' Hc; rewrite <- E; apply N; exact Hc].
   - intros s Hq s' t Es. rewrite <- E in Hq. rewrite <- E. eapply (st_neb _ H); eauto.
   - intros s Hq. rewrite <- E in Hq. exact (st_nopanic _ H _ Hq).
 Qed.
@@ -200,17 +200,17 @@ Qed.
 Lemma streamable_counted A (p : parser A) : streamable p -> streamable (counted p).
 Proof.
   intros Hp. split; unfold counted.
-  - intros s x r H. destruct (p s) as [a r0| |e0|] eqn:Ep; try congruence. inversion H; subst.
+  - intros s x r H. destruct (p s) as [a r0| |e0 r0|] eqn:Ep; try congruence. inversion H; subst.
     destruct (st_ok _ Hp _ _ _ Ep) as [c [E1 [K N]]]. exists c. split; [exact E1|]. split.
     + intros r'. rewrite K. rewrite E1, !zlen_app. f_equal. f_equal. lia.
     + intros c' Hc. rewrite (N _ Hc). reflexivity.
-  - intros s e H. destruct (p s) as [a r0| |e0|] eqn:Ep; try congruence. inversion H; subst.
-    destruct (st_err _ Hp _ _ Ep) as [c [r [E1 [K N]]]]. exists c, r. split; [exact E1|]. split.
+  - intros s e r H. destruct (p s) as [a r0| |e0 r0|] eqn:Ep; try congruence. inversion H; subst.
+    destruct (st_err _ Hp _ _ _ Ep) as [c [E1 [K N]]]. exists c. split; [exact E1|]. split.
     + intros r'. rewrite K. reflexivity.
     + intros c' Hc. rewrite (N _ Hc). reflexivity.
-  - intros s H s' t Es. destruct (p s) as [a r0| |e0|] eqn:Ep; try congruence.
+  - intros s H s' t Es. destruct (p s) as [a r0| |e0 r0|] eqn:Ep; try congruence.
     rewrite (st_neb _ Hp _ Ep _ _ Es). reflexivity.
-  - intros s H. destruct (p s) as [a r0| |e0|] eqn:Ep; try congruence. exact (st_nopanic _ Hp _ Ep).
+  - intros s H. destruct (p s) as [a r0| |e0 r0|] eqn:Ep; try congruence. exact (st_nopanic _ Hp _ Ep).
 Qed.
 
 (* consequences used by the channel proofs *)
